@@ -139,6 +139,12 @@ def c06(tier):
              + mk("hostile", 150 if q else 8000, s + 2, "smallbuf", n_ops=50)
              + mk("hostile", 200 if q else 8000, s + 3, "default", lane="msan", n_ops=40)
              + mk("bus", 60 if q else 2000, s + 4, "default", lane="msan", n_ops=50))
+    # every proper prefix of well-formed messages, each as the first and only message of a fresh connection
+    for m in range(len(scen_hostile.PREFIX_MESSAGES)):
+        for tr in ("raw", "uds", "ws"):
+            for lane in ("msan", "asan"):
+                for sep in ([(", ", ": ")] if q else [(", ", ": "), (",", ":"), (" ,\n", " :\t")]):
+                    cases += mk("hostile-prefixes", 1, s + 9, "default", lane=lane, msg=m, transport=tr, separators=sep)
     res = run_cases(cases)
     from . import fuzzlane
     res += fuzzlane.run(tier, s)
